@@ -225,6 +225,9 @@ class C12(Prop):
                 out.append((target, asmmt.gen_items(rnd, target, undef), rnd.random() < 0.5, undef, rnd.random() < 0.1))
         return out
 
+    def run_mt(self, c):
+        return asmmt.run(c[0], c[1], c[2], c[3], unreachable=c[4])
+
     def correspondence(self, tier, ctx):
         cases = self.cases(tier, "c12")
         runs = [asmgen.run_assembler(c, p, u, unreachable=x) for c, p, u, x in cases]
@@ -237,7 +240,7 @@ class C12(Prop):
                 errs[r[1]] = errs.get(r[1], 0) + 1
         # X64 ELF Intel syntax, X64 PE, IA32 PE (both syntaxes), AArch64, MIPS32
         mt = self.cases_mt(tier, "c12-mt")
-        mruns = [asmmt.run(t, items, p, u, unreachable=x) for t, items, p, u, x in mt]
+        mruns = [self.run_mt(c) for c in mt]
         self._mruns = list(zip(mt, mruns))
         mgot = C.run_driver("asm", [r[0] for r in mruns])
         dis += [{"target": c[0], "text": [it["line"] for it in c[1]], "implementation": r[1][:400], "model": g[:400]} for c, r, g in zip(mt, mruns, mgot) if r[1] != g]
@@ -270,8 +273,8 @@ class C12(Prop):
         mpairs = getattr(self, "_mruns", None)
         if mpairs is None or boosted:
             mt = self.cases_mt("thorough" if boosted else tier, "c12-mt-boost")
-            mpairs = (mpairs or []) + [(c, asmmt.run(c[0], c[1], c[2], c[3], unreachable=c[4])) for c in mt]
-        for (target, items, pie, undef, unreach), (line, out, res, msyms) in mpairs:
+            mpairs = (mpairs or []) + [(c, self.run_mt(c)) for c in mt]
+        for (target, items, pie, undef, unreach, *_), (line, out, res, msyms) in mpairs:
             text = [it["line"] for it in items]
             if res is None:
                 if out.startswith("err") and out.split()[1] not in ("UnsupportedAssemblyError", "UndefSymbolError", "MultipleDefinitionsError", "AsmSyntaxError"):
